@@ -124,9 +124,20 @@ def run_case(args):
                 res["inconclusive"] = "setup failed: " + r.get("err", "")[:60]
                 return res
         big = len(L) * max(1, len(R)) > 600000
-        for _ in range(nops):
-            kind = rng.choice(["join"] * 5 + ["agg"] * 3 + ["topn"] * 2)
-            if kind == "join":
+        rng2 = random.Random(f"c11b-{seed}-{idx}")   # shapes added later draw from a stream of their own
+        for opno in range(nops + (2 if L else 0)):
+            kind = rng.choice(["join"] * 5 + ["agg"] * 3 + ["topn"] * 2) if opno < nops else "aggfl"
+            if kind == "aggfl":
+                # order-dependent aggregates (`first` is what DISTINCT ON is planned into): the simple and the hash implementation
+                # read the same scan in the same order, so they must agree with each other (no reference: mutual)
+                aggs = [(rng2.choice(["first", "last", "first", "last", "sum", "rowcount"]), rng2.choice([0, 0, 1, 2])) for _ in range(rng2.randint(1, 3))]
+                if not any(f in ("first", "last") for f, _ in aggs):
+                    aggs[0] = (rng2.choice(["first", "last"]), 0)
+                cmd = dict(op="opimpl", kind="agg", keys=[], aggs=[list(a) for a in aggs], table="l")
+                want = None
+                label = f"agg keys=[] aggs={aggs}"
+                ordered = None
+            elif kind == "join":
                 jt = rng.choice(["inner", "left_outer", "right_outer", "full_outer", "semi", "anti"])
                 nk = rng.choice([1, 1, 2])
                 cols = rng.sample([0, 1], nk) if nk == 2 else [rng.choice([0, 1])]
@@ -185,6 +196,13 @@ def run_case(args):
                         res["violations"].append(dict(signature="topn-vs-limit-order", what=f"{label}: limit(order) keys {ka[:6]} ({len(a)} rows) vs topn {kb[:6]} ({len(b)} rows), expected {exp_n} rows"))
                     else:
                         res["distinct"].append(h([idx, label]))
+                continue
+            if kind == "aggfl":
+                if len(got) >= 2 and len({repr(ms(rows)) for rows in got.values()}) > 1:
+                    res["violations"].append(dict(signature="agg:first-last-implementations-differ",
+                                                  what=f"{label} over {len(L)} rows (first rows {L[:3]}, last rows {L[-3:]}): " + "; ".join(f"{i} -> {ms(r)}" for i, r in got.items())))
+                elif len(got) >= 2:
+                    res["distinct"].append(h([idx, label]))
                 continue
             bad = [imp for imp, rows in got.items() if ms(rows) != want]
             if bad:
